@@ -685,7 +685,7 @@ theorem dq_handleTimeout {s : State} (h : DQ s) (now : Nat) : DQ (handleTimeout 
     generalize (handleInactivity s now).1 = t at hi
     simp only [handleAckTimer]
     repeat' split
-    all_goals inv_auto dq_frame 7 [dq_abandon, dq_handleFault]
+    all_goals inv_auto dq_frame 7 [dq_abandon, dq_handleFault, dq_shutdown]
   have hack2 : ∀ c, DQ (handleAckTimer { (handleInactivity s now).1 with timer :=
       { (handleInactivity s now).1.timer with nak := (handleInactivity s now).1.timer.nak.pause now } } now c) := by
     intro c
@@ -696,7 +696,7 @@ theorem dq_handleTimeout {s : State} (h : DQ s) (now : Nat) : DQ (handleTimeout 
         { (handleInactivity s now).1.timer with nak := (handleInactivity s now).1.timer.nak.pause now } } : State) = t at hp
     simp only [handleAckTimer]
     repeat' split
-    all_goals inv_auto dq_frame 7 [dq_abandon, dq_handleFault]
+    all_goals inv_auto dq_frame 7 [dq_abandon, dq_handleFault, dq_shutdown]
   dsimp only at hack2
   simp only [handleTimeout, handleDelayed_nil h.delayed, idle_timeoutOccurred hidle]
   repeat' split
